@@ -2,7 +2,7 @@
    Section hypothesis [L : PoolLaws P] = the two laws "calc = fst of swap" and "calc leaves the pool unchanged". *)
 From Coq Require Import ZArith List Bool Lia.
 Import ListNotations.
-From Osmo Require Import Base.DecModel C05.Model.
+From Osmo Require Import Base.DecModel Gen.C05_consts C05.Model.
 Open Scope Z_scope.
 
 (* ------------------------------------------------------------------ taker-fee arithmetic *)
@@ -348,7 +348,7 @@ Lemma loop_in_skim : forall route s sender dIn amt minOut s' out,
   route_in_loop P s sender route dIn amt minOut = Ok (s', out) -> skim s' = skim s.
 Proof.
   induction route as [|[pid dOut] rest IH]; intros; cbn [route_in_loop] in H; [discriminate|].
-  destruct (pm_swap_exact_in P s sender pid dIn amt dOut (match rest with [] => minOut | _ :: _ => 1 end)) as [[s1 [o f]]|] eqn:E; [|discriminate].
+  destruct (pm_swap_exact_in P s sender pid dIn amt dOut (match rest with [] => minOut | _ :: _ => hop_min_out end)) as [[s1 [o f]]|] eqn:E; [|discriminate].
   apply pm_in_skim in E. destruct rest as [|h2 rest']; [inversion H; subst; assumption|].
   apply IH in H. congruence.
 Qed.
@@ -384,7 +384,7 @@ Proof.
   destruct rest as [|h rest'].
   - destruct (pm_swap_exact_in P s sender pid dIn amt dOut minOut) as [[s1 [o f]]|] eqn:E; [|discriminate].
     inversion H; subst. eapply pm_swap_exact_in_min; eauto.
-  - destruct (pm_swap_exact_in P s sender pid dIn amt dOut 1) as [[s1 [o f]]|] eqn:E; [|discriminate].
+  - destruct (pm_swap_exact_in P s sender pid dIn amt dOut hop_min_out) as [[s1 [o f]]|] eqn:E; [|discriminate].
     eapply IH; eauto.
 Qed.
 
@@ -396,13 +396,13 @@ Proof. intros. apply route_in_ok in H. destruct H as [H _]. eapply loop_in_min_o
 (* a multi-hop route = its first hop (minimum 1) followed by the rest of the route fed with the first hop's output *)
 Lemma loop_in_cons : forall s sender h rest dIn amt minOut, rest <> [] ->
   route_in_loop P s sender (h :: rest) dIn amt minOut =
-  match route_in_loop P s sender [h] dIn amt 1 with
+  match route_in_loop P s sender [h] dIn amt hop_min_out with
   | Err e => Err e
   | Ok (s1, out) => route_in_loop P s1 sender rest (snd h) out minOut
   end.
 Proof.
   intros. destruct h as [pid dOut]. destruct rest as [|h2 rest']; [congruence|].
-  simpl. destruct (pm_swap_exact_in P s sender pid dIn amt dOut 1) as [[s1 [o f]]|]; reflexivity.
+  simpl. destruct (pm_swap_exact_in P s sender pid dIn amt dOut hop_min_out) as [[s1 [o f]]|]; reflexivity.
 Qed.
 
 (* the left fold of "taker fee, then the pool" over the hops *)
@@ -415,12 +415,12 @@ Definition in_step (sender : acct) (acc : result (state P * (Z * Z))) (hm : (Z *
     | Ok (s', (out, _)) => Ok (s', (snd (fst hm), out))
     end
   end.
-(* the per-hop minimum: 1, ..., 1, the caller's minimum *)
+(* the per-hop minimum: hop_min_out, ..., hop_min_out, the caller's minimum *)
 Fixpoint hop_mins (route : list (Z * Z)) (minOut : Z) : list Z :=
   match route with
   | [] => []
   | [_] => [minOut]
-  | _ :: r => 1 :: hop_mins r minOut
+  | _ :: r => hop_min_out :: hop_mins r minOut
   end.
 
 Lemma fold_in_step_err : forall sender l e, fold_left (in_step sender) l (Err e) = Err e.
@@ -438,15 +438,15 @@ Proof.
   - simpl. destruct (pm_swap_exact_in P s sender pid dIn amt dOut minOut) as [[s1 [o f]]|]; reflexivity.
   - remember (h2 :: rest') as r2 eqn:R.
     assert (R2 : r2 <> []) by (subst; discriminate).
-    assert (HM : hop_mins ((pid, dOut) :: r2) minOut = 1 :: hop_mins r2 minOut) by (subst; reflexivity).
+    assert (HM : hop_mins ((pid, dOut) :: r2) minOut = hop_min_out :: hop_mins r2 minOut) by (subst; reflexivity).
     assert (HL : route_in_loop P s sender ((pid, dOut) :: r2) dIn amt minOut =
-                 match pm_swap_exact_in P s sender pid dIn amt dOut 1 with
+                 match pm_swap_exact_in P s sender pid dIn amt dOut hop_min_out with
                  | Err e => Err e
                  | Ok (s', (out, _)) => route_in_loop P s' sender r2 dOut out minOut
                  end).
-    { subst. simpl. destruct (pm_swap_exact_in P s sender pid dIn amt dOut 1) as [[s1 [o f]]|]; reflexivity. }
+    { subst. simpl. destruct (pm_swap_exact_in P s sender pid dIn amt dOut hop_min_out) as [[s1 [o f]]|]; reflexivity. }
     rewrite HL, HM. cbn [combine fold_left in_step fst snd].
-    destruct (pm_swap_exact_in P s sender pid dIn amt dOut 1) as [[s1 [o f]]|].
+    destruct (pm_swap_exact_in P s sender pid dIn amt dOut hop_min_out) as [[s1 [o f]]|].
     + rewrite IH by assumption. reflexivity.
     + rewrite fold_in_step_err. reflexivity.
 Qed.
@@ -562,7 +562,7 @@ Definition leg_in_step (sender : acct) (dIn : Z) (acc : result (state P * list Z
   | Err e => Err e
   | Ok (s, outs) =>
     if snd leg <? 0 then Err EPanic else
-    match route_exact_in P s sender (fst leg) dIn (snd leg) 0 with
+    match route_exact_in P s sender (fst leg) dIn (snd leg) split_leg_min with
     | Err e => Err e
     | Ok (s', out) => Ok (s', outs ++ [out])
     end
@@ -594,7 +594,7 @@ Proof.
   induction legs as [|[r amt] rest IH]; intros; simpl.
   - exists []. rewrite app_nil_r. split; [reflexivity|simpl; lia].
   - destruct (amt <? 0); [apply fold_leg_in_err|].
-    destruct (route_exact_in P s sender r dIn amt 0) as [[s1 out]|e]; [|apply fold_leg_in_err].
+    destruct (route_exact_in P s sender r dIn amt split_leg_min) as [[s1 out]|e]; [|apply fold_leg_in_err].
     specialize (IH s1 sender dIn (total + out) (acc ++ [out])).
     destruct (split_in_loop P s1 sender rest dIn (total + out)) as [[s' tot]|e]; [|exact IH].
     destruct IH as (outs & F & T). exists (out :: outs). rewrite F, <- app_assoc. split; [reflexivity|simpl; lia].
@@ -687,7 +687,7 @@ Proof.
   induction route as [|[pid dOut] rest IH]; intros; [reflexivity|].
   simpl. destruct rest as [|h2 rest'].
   - rewrite pm_in_min01. reflexivity.
-  - destruct (pm_swap_exact_in P s sender pid dIn amt dOut 1) as [[s1 [o f]]|]; [|reflexivity]. apply IH.
+  - destruct (pm_swap_exact_in P s sender pid dIn amt dOut hop_min_out) as [[s1 [o f]]|]; [|reflexivity]. apply IH.
 Qed.
 
 Lemma route_in_min01 : forall route s sender dIn amt,
@@ -717,17 +717,17 @@ Theorem swap_in_msg_compose : forall s sender h rest dIn amt minOut, rest <> [] 
   skim_ok P s (dIn :: map snd (h :: rest)) = true -> skim_ok P s [dIn; snd h] = true ->
   skim_ok P s (snd h :: map snd rest) = true ->
   handle P s (MSwapIn sender (h :: rest) dIn amt minOut) =
-  match handle P s (MSwapIn sender [h] dIn amt 1) with
+  match handle P s (MSwapIn sender [h] dIn amt hop_min_out) with
   | Err e => Err e
   | Ok (s1, out) => handle P s1 (MSwapIn sender rest (snd h) out minOut)
   end.
 Proof.
   intros s sender h rest dIn amt minOut NE Pm K0 K1 K2. rewrite !handle_swap_in.
   assert (M : 0 <? minOut = true) by (apply Z.ltb_lt; assumption). rewrite M.
-  change (0 <? 1) with true. cbn [negb andb].
+  change (0 <? hop_min_out) with true. cbn [negb andb].
   destruct (0 <? amt) eqn:A; cbn [andb]; [|reflexivity].
   unfold route_exact_in at 1 2. rewrite loop_in_cons by assumption.
-  destruct (route_in_loop P s sender [h] dIn amt 1) as [[s1 out]|] eqn:E; [|reflexivity].
+  destruct (route_in_loop P s sender [h] dIn amt hop_min_out) as [[s1 out]|] eqn:E; [|reflexivity].
   pose proof (loop_in_skim _ _ _ _ _ _ _ _ E) as SK1.
   cbn [map]. rewrite (skim_ok_ext s s1 _ SK1), K1.
   apply loop_in_min_out in E. destruct E as [_ Pz].
@@ -846,7 +846,7 @@ Lemma loop_in_preserves : forall route s dIn amt minOut s' out,
   I s -> route_in_loop P s sender route dIn amt minOut = Ok (s', out) -> I s'.
 Proof.
   induction route as [|[pid dOut] rest IH]; intros; cbn [route_in_loop] in H0; [discriminate|].
-  destruct (pm_swap_exact_in P s sender pid dIn amt dOut (match rest with [] => minOut | _ :: _ => 1 end)) as [[s1 [o f]]|] eqn:E; [|discriminate].
+  destruct (pm_swap_exact_in P s sender pid dIn amt dOut (match rest with [] => minOut | _ :: _ => hop_min_out end)) as [[s1 [o f]]|] eqn:E; [|discriminate].
   apply I_in in E; [|assumption].
   destruct rest as [|h2 rest']; [inversion H0; subst; assumption|]. eapply IH; eauto.
 Qed.
@@ -881,7 +881,7 @@ Lemma split_in_loop_preserves : forall legs s dIn total s' tot,
 Proof.
   induction legs as [|[r amt] rest IH]; intros; cbn [split_in_loop] in H0; [inversion H0; subst; assumption|].
   destruct (amt <? 0); [discriminate|].
-  destruct (route_exact_in P s sender r dIn amt 0) as [[s1 out]|] eqn:E; [|discriminate].
+  destruct (route_exact_in P s sender r dIn amt split_leg_min) as [[s1 out]|] eqn:E; [|discriminate].
   eapply IH; [|eassumption]. eapply route_in_preserves; eauto.
 Qed.
 
@@ -959,7 +959,7 @@ Lemma loop_in_delivers : forall route s n dIn amt minOut s' out,
   bal s' (Trader n) (last_denom route) = bal s (Trader n) (last_denom route) + out.
 Proof.
   induction route as [|[pid dOut] rest IH]; intros s n dIn amt minOut s' out ND H; cbn [route_in_loop] in H; [discriminate|].
-  destruct (pm_swap_exact_in P s (Trader n) pid dIn amt dOut (match rest with [] => minOut | _ :: _ => 1 end)) as [[s1 [o f]]|] eqn:E; [|discriminate].
+  destruct (pm_swap_exact_in P s (Trader n) pid dIn amt dOut (match rest with [] => minOut | _ :: _ => hop_min_out end)) as [[s1 [o f]]|] eqn:E; [|discriminate].
   apply pm_in_sender_bal in E. destruct E as (Hne & paid & _ & S1).
   cbn [map snd] in ND. inversion ND as [|? ? N1 ND1]; subst.
   destruct rest as [|h2 rest'].
@@ -1148,7 +1148,7 @@ Lemma est_in_eq_exec : forall route s sender dIn amt minOut s' out,
 Proof.
   induction route as [|[pid dOut] rest IH]; intros s sender dIn amt minOut s' out ND W H; [discriminate|].
   cbn [route_in_loop] in H.
-  destruct (pm_swap_exact_in P s sender pid dIn amt dOut (match rest with [] => minOut | _ :: _ => 1 end)) as [[s1 [o f]]|] eqn:E; [|discriminate].
+  destruct (pm_swap_exact_in P s sender pid dIn amt dOut (match rest with [] => minOut | _ :: _ => hop_min_out end)) as [[s1 [o f]]|] eqn:E; [|discriminate].
   pose proof (pm_in_frame _ _ _ _ _ _ _ _ _ _ E) as (F1 & F2 & F3).
   apply pm_in_inv in E. destruct E as (p & s0 & after & G & A & C & M).
   apply (charge_after_in _ _ _ _ _ _ _ _ W) in C. subst after.
